@@ -44,6 +44,7 @@ CONTRACTS[F + "sparse_mul"] = dict(
         "len(result[0]) == len(result[1])",
         "strictly_increasing(result[0])",
         "forall(0, len(result[0]), lambda k: member(result[0][k], ind1) and member(result[0][k], ind2))",
+        "forall(0, len(result[1]), lambda k: result[1][k] != 0)",   # no stored zeros
         "unchanged(ind1) and unchanged(ind2) and unchanged(data1) and unchanged(data2)",
     ],
     loops={
@@ -58,6 +59,7 @@ CONTRACTS[F + "sparse_mul"] = dict(
                 "forall(0, nnz, lambda k: member(result_ind[k], ind1) and member(result_ind[k], ind2))",
                 "forall(0, nnz, lambda k: implies(i1 < len(ind1), result_ind[k] < ind1[i1]) and implies(i2 < len(ind2), result_ind[k] < ind2[i2]))",
                 "nnz <= len(result_ind)",
+                "forall(0, nnz, lambda k: result_data[k] != 0)",
             ],
             decreases="len(ind1) - i1 + len(ind2) - i2",
         ),
